@@ -192,9 +192,20 @@ func Snap(m *ast.DataMessage) (s MsgSnap) {
 	s.Header, s.Type = m.Header(), m.Type()
 	s.Vars = append([]string{}, m.Variables()...)
 	s.Str = m.String()
-	s.Bytes = string(m.ToBytes())
+	raw := m.ToBytes()
+	s.Bytes = string(raw)
+	// the bytes handed out belong to the caller: encoding another message must not change them
+	_ = probeMsg.ToBytes()
+	_ = probeItem.ToBytes()
+	if string(raw) != s.Bytes {
+		s.Panic = fmt.Sprintf("the bytes ToBytes() returned (%x) changed when another message was encoded (now %x)", clip(s.Bytes), clip(string(raw)))
+	}
 	return s
 }
+
+// probeMsg / probeItem: small complete objects, built once, only ever read (String/ToBytes) afterwards.
+var probeItem = ast.NewListNode(ast.NewUintNode(2, 0xABCD), ast.NewASCIINode("probe"), ast.NewListNode(ast.NewBinaryNode(1, 2, 3)))
+var probeMsg = ast.NewHSMSDataMessage("probe", 99, 1, 1, "H<->E", probeItem, 4660, []byte{0xDE, 0xAD, 0xBE, 0xEF})
 
 func (a MsgSnap) Diff(b MsgSnap) string {
 	switch {
@@ -263,9 +274,15 @@ func SnapItem(it ast.ItemNode) (s ItemSnap) {
 		}
 	}()
 	s.Str = Str(it)
-	s.Bytes = string(it.ToBytes())
+	raw := it.ToBytes()
+	s.Bytes = string(raw)
 	s.Vars = append([]string{}, it.Variables()...)
 	s.Size = it.Size()
+	_ = probeItem.ToBytes()
+	_ = probeMsg.ToBytes()
+	if string(raw) != s.Bytes {
+		s.Panic = fmt.Sprintf("the bytes ToBytes() returned (%x) changed when another item was encoded (now %x)", clip(s.Bytes), clip(string(raw)))
+	}
 	return s
 }
 
